@@ -264,8 +264,10 @@ def to_sdl(S, r=None):
     return "\n".join(out + ext) + "\n"
 
 
-def build_prog(S, rng=None, force_mode=None):
-    """Build the schema with the Python constructors (thunks resolve the names)."""
+def build_prog(S, rng=None, force_mode=None, dcache=None):
+    """Build the schema with the Python constructors (thunks resolve the names).
+    dcache: dict shared between builds; the GraphQLDefaultInput object of a position is reused when
+    position, value and form are unchanged (schemas derived from one another share default objects)."""
     from graphql.language import parse_const_value
     from graphql.type import (
         GraphQLArgument, GraphQLBoolean, GraphQLDefaultInput, GraphQLDirective, GraphQLEnumType,
@@ -291,7 +293,19 @@ def build_prog(S, rng=None, force_mode=None):
             return GraphQLList(ty(t[1]))
         return GraphQLNonNull(ty(t[1]))
 
-    def dkw(iv):
+    def mkdefault(pos, lit, mode):
+        def make():
+            if mode == "value":
+                return GraphQLDefaultInput(value=lit_py(lit))
+            return GraphQLDefaultInput(literal=parse_const_value(lit_sdl(lit)))
+        if dcache is None:
+            return make()
+        key = (pos, json.dumps(lit), mode)
+        if key not in dcache:
+            dcache[key] = make()
+        return dcache[key]
+
+    def dkw(iv, pos=""):
         d = iv.get("default")
         kw = {}
         if iv.get("dep"):
@@ -302,17 +316,15 @@ def build_prog(S, rng=None, force_mode=None):
             kw["default_value"] = 0
             return kw
         mode = force_mode or d[2]
-        if mode == "value" and not lit_has_enum(d[1]):
-            kw["default"] = GraphQLDefaultInput(value=lit_py(d[1]))
-        else:
-            kw["default"] = GraphQLDefaultInput(literal=parse_const_value(lit_sdl(d[1])))
+        mode = "value" if (mode == "value" and not lit_has_enum(d[1])) else "literal"
+        kw["default"] = mkdefault(pos + ":" + iv["name"], d[1], mode)
         return kw
 
-    def args(l):
-        return {a["name"]: GraphQLArgument(ty(a["type"]), **dkw(a)) for a in l}
+    def args(l, pos):
+        return {a["name"]: GraphQLArgument(ty(a["type"]), **dkw(a, pos)) for a in l}
 
     def fields(t):
-        return lambda: {f["name"]: GraphQLField(ty(f["type"]), args=args(f["args"]),
+        return lambda: {f["name"]: GraphQLField(ty(f["type"]), args=args(f["args"], t["name"] + "." + f["name"]),
                                                 deprecation_reason="gone" if f.get("dep") else None)
                         for f in t["fields"]}
 
@@ -332,7 +344,7 @@ def build_prog(S, rng=None, force_mode=None):
             reg[n] = GraphQLEnumType(n, {v: GraphQLEnumValue(v) for v in t["values"]})
         elif k == "input":
             reg[n] = GraphQLInputObjectType(
-                n, (lambda t=t: {a["name"]: GraphQLInputField(ty(a["type"]), **dkw(a)) for a in t["fields"]}),
+                n, (lambda t=t: {a["name"]: GraphQLInputField(ty(a["type"]), **dkw(a, t["name"])) for a in t["fields"]}),
                 is_one_of=bool(t.get("oneof")))
     dirs = list(specified_directives)
     for d in S.get("directives", []):
@@ -340,7 +352,7 @@ def build_prog(S, rng=None, force_mode=None):
             dirs.append(Bogus(d["name"]) if d["name"] != "str" else "not a directive")
             continue
         dirs.append(GraphQLDirective(d["name"], [DirectiveLocation[x] for x in d["locations"]],
-                                     args=args(d["args"])))
+                                     args=args(d["args"], "@" + d["name"])))
     return GraphQLSchema(
         query=reg[S["query"]] if S.get("query") else None,
         mutation=reg[S["mutation"]] if S.get("mutation") else None,
@@ -350,6 +362,46 @@ def build_prog(S, rng=None, force_mode=None):
 
 
 # ----------------------------------------------------------------------------- dump of a built schema
+
+
+def warm_defaults(schema, rng=None):
+    """Use a (valid) schema the way requests do: coerce every default value (memoized on the default
+    objects) and run a few requests on root fields.  Nothing is compared here."""
+    from graphql import graphql_sync
+    from graphql.type import (GraphQLDirective, GraphQLInputObjectType, GraphQLInterfaceType,
+                              GraphQLObjectType, is_leaf_type, get_named_type)
+    from graphql.utilities.coerce_input_value import coerce_default_value
+    n = 0
+    holders = []
+    for t in schema.type_map.values():
+        if isinstance(t, (GraphQLObjectType, GraphQLInterfaceType)):
+            for f in t.fields.values():
+                holders += list(f.args.values())
+        elif isinstance(t, GraphQLInputObjectType):
+            holders += list(t.fields.values())
+    for d in schema.directives:
+        if isinstance(d, GraphQLDirective):
+            holders += list(d.args.values())
+    for h in holders:
+        if h.default is not None:
+            try:
+                coerce_default_value(h)
+                n += 1
+            except Exception:  # noqa: BLE001
+                pass
+    q = schema.query_type
+    if q is not None:
+        k = 0
+        for fn, f in q.fields.items():
+            if k >= 3:
+                break
+            if is_leaf_type(get_named_type(f.type)) and not fn.startswith("__"):
+                k += 1
+                try:
+                    graphql_sync(schema, "{ " + fn + " }")
+                except Exception:  # noqa: BLE001
+                    pass
+    return n
 
 
 def ast_lit(node):
@@ -1726,7 +1778,107 @@ def M_redefine_specified_directive(S, r):
     return True
 
 
+def holders_of(S, fname):
+    return [(t, f) for t in types_of(S, "object", "interface") for f in t["fields"] if f["name"] == fname]
+
+
+def _kind_swap_pair(r, base):
+    """Two types of equal wrapper depth that differ in the KIND of a wrapper."""
+    return r.choice([(["l", base], ["nn", base]), (["nn", base], ["l", base]),
+                     (["l", ["nn", base]], ["l", ["l", base]]), (["l", ["l", base]], ["l", ["nn", base]]),
+                     (["nn", ["l", base]], ["l", ["l", base]])])
+
+
+def M_arg_wrapper_kind_swap(S, r):
+    c = [(t, f, it, jf) for t, f, it, jf in inherited(S) if jf["args"]]
+    if not c:
+        return False
+    t, f, it, jf = r.choice(c)
+    an = r.choice(jf["args"])["name"]
+    base = tn(named_of([a for a in jf["args"] if a["name"] == an][0]["type"]))
+    A, B = _kind_swap_pair(r, base)
+    for _, hf in holders_of(S, f["name"]):
+        for a in hf["args"]:
+            if a["name"] == an:
+                a["type"], a["default"], a["dep"] = copy.deepcopy(A), None, False
+    for a in f["args"]:
+        if a["name"] == an:
+            a["type"] = copy.deepcopy(B)
+    return True
+
+
+def M_field_wrapper_kind_swap(S, r):
+    c = inherited(S)
+    if not c:
+        return False
+    t, f, it, jf = r.choice(c)
+    base = tn(named_of(jf["type"]))
+    A, B = _kind_swap_pair(r, base)
+    for _, hf in holders_of(S, f["name"]):
+        hf["type"] = copy.deepcopy(A)
+    f["type"] = copy.deepcopy(B)
+    return True
+
+
+def _default_lits(S):
+    c = [a for _, _, a in field_args(S)] + [a for _, a in dir_args(S)] + [a for _, a in input_fields(S)]
+    return [a for a in c if a.get("default") and a["default"][0] == "lit"]
+
+
+def M_enum_drop_used_value(S, r):
+    """Narrow an enum: a value used by some default disappears, the default stays as it is."""
+    used = set()
+
+    def walk(v):
+        if v[0] == "enum":
+            used.add(v[1])
+        elif v[0] == "list":
+            for x in v[1]:
+                walk(x)
+        elif v[0] == "obj":
+            for _, x in v[1]:
+                walk(x)
+    for a in _default_lits(S):
+        walk(a["default"][1])
+    c = [(t, v) for t in types_of(S, "enum") if len(t["values"]) >= 2 for v in t["values"] if v in used]
+    if not c:
+        return False
+    t, v = r.choice(c)
+    t["values"] = [x for x in t["values"] if x != v]
+    return True
+
+
+def M_input_add_required_field(S, r):
+    """A new required input field: every default object written for the type is now incomplete."""
+    tm = tmap(S)
+    c = [tm[named_of(a["type"])] for a in _default_lits(S)
+         if tm.get(named_of(a["type"]), {}).get("kind") == "input" and not tm[named_of(a["type"])].get("oneof")]
+    c = c or [t for t in types_of(S, "input") if not t.get("oneof")]
+    if not c:
+        return False
+    r.choice(c)["fields"].append({"name": "zreq", "type": ["nn", tn(r.choice(["Int", "Boolean"]))],
+                                  "dep": False, "default": None})
+    return True
+
+
+def M_input_field_retype(S, r):
+    """Change the leaf type of an input field: values given for it inside defaults no longer fit."""
+    c = [(t, a) for t, a in input_fields(S) if named_of(a["type"]) in BUILTIN]
+    if not c:
+        return False
+    t, a = r.choice(c)
+    old = named_of(a["type"])
+    new = r.choice([b for b in ("Int", "Boolean", "String") if b != old])
+
+    def repl(ty):
+        return tn(new) if ty[0] == "n" else [ty[0], repl(ty[1])]
+    a["type"] = repl(a["type"])
+    return True
+
+
 MUTATIONS += [
+    M_arg_wrapper_kind_swap, M_field_wrapper_kind_swap, M_enum_drop_used_value,
+    M_input_add_required_field, M_input_field_retype,
     M_redefine_specified_directive,
     M_default_missing_required, M_default_unknown_field, M_default_oneof_two, M_default_oneof_null,
     M_default_oneof_empty, M_default_nested_bad, M_default_wrong_leaf, M_default_null_item,
@@ -1939,7 +2091,7 @@ class Runner:
                 self.add_built("programmatic", {"label": label, "abstract": S, "force_mode": mode}, sch, S)
                 if base is not None:
                     try:
-                        sch2 = build_prog(S, force_mode=mode)
+                        sch2 = build_prog(S, force_mode=mode, dcache=base[2])
                         kw = dict(base[1].to_kwargs())
                         kw.update(query=sch2.query_type, mutation=sch2.mutation_type,
                                   subscription=sch2.subscription_type,
@@ -2022,6 +2174,7 @@ class Runner:
                 return
         except (TypeError, GraphQLError):
             return
+        warm_defaults(b2, rng)
         objs = [n for n, k in kinds.items() if k == "object"]
         ins = [n for n, k in kinds.items() if k == "input"]
         ifs = [n for n, k in kinds.items() if k == "interface"]
@@ -2034,6 +2187,10 @@ class Runner:
             i = rng.choice(ins)
             docs += [f"extend type {o} {{ zbad: {i} }}", f"extend input {i} {{ zc: {i}! }}",
                      f"extend input {i} {{ zd: {i} = {{}} }}"]
+        # a new required field invalidates every default object written for the type (also nested ones)
+        plain = [t["name"] for t in S["types"] if t["kind"] == "input" and not t.get("oneof")]
+        for i in rng.sample(plain, min(3, len(plain))):
+            docs.append(f"extend input {i} {{ znew: {rng.choice(['Int!', '[Int!]!', 'Boolean!'])} }}")
         if ifs:
             docs.append(f"type ZImp implements {rng.choice(ifs)} {{ zz: Int }}")
         if uns:
@@ -2214,9 +2371,11 @@ def run(tier):
         # a validated valid base: mutants are ALSO constructed from its to_kwargs()
         base = None
         try:
-            bsch = build_prog(S)
+            dcache = {}
+            bsch = build_prog(S, dcache=dcache)
             if validate_schema(bsch) == []:
-                base = (S, bsch)
+                ck.count("base_defaults_coerced_before_deriving", warm_defaults(bsch, r))
+                base = (S, bsch, dcache)
                 rn.add_history(S, bsch, r)
             else:
                 ck.count("base_not_valid_by_implementation")
